@@ -19,13 +19,25 @@ CONSTANTS Family,      \* "radial" | "cyl"
           DR, DZ, Z0,
           CentralRule, \* which copies of a padded candidate are kept: "closed" z_min <= z <= z_max (the implementation
                        \* before the repair of F18: a centre exactly on the seam is kept twice) | "halfopen" z_min <= z < z_max
-          SpanRule     \* when the padded analysis is abandoned: "one-period" a cluster starting at the padded edge that is
+          SpanHandling,\* what happens when the padded image holds a cluster that winds around the axis: "fallback" the padded
+                       \* analysis is abandoned for the WHOLE image (the implementation before the repair of F21: every other
+                       \* cluster crossing the seam is then cut in two) | "central" the winding cluster is kept as one candidate
+                       \* made of its cells in the central copy of the padded image (so its volume is that of one period),
+                       \* everything else is analysed as usual
+          ZWeight,     \* axial position of a cluster as computed: "count" the mean over its cells (the implementation) |
+                       \* "volume" every cell weighted with its volume (2i+1)
+          Reading,     \* what the PROPERTY takes the centre of mass of a component to be: "cells" every cell of the binary
+                       \* image counts once, as on Cartesian grids (the reading adopted, DESIGN 9.3) | "volume" cells weighted
+                       \* with their volume (under this reading the implementation is refuted for clusters that are not
+                       \* mirror symmetric in z; recorded as an observation)
+          SpanRule     \* when a cluster counts as winding: "one-period" a cluster starting at the padded edge that is
                        \* longer than one period (before the repair: also true for non-winding clusters longer than a
                        \* period) | "whole" a cluster spanning the whole padded image (exactly the winding clusters)
 
 VARIABLES mask,        \* set of cells <<i, j>>
           pc,          \* "start" | "padded" | "single" | "central" | "done"
-          cands,       \* Seq([vc, w, sz, cells]): on-axis clusters (count, volume weight, sum of j, cells)
+          cands,       \* Seq([vc, w, sz, szw, pn, pd, cells]): on-axis clusters (count, volume weight, sum of j, volume-weighted
+                       \* sum of j, axial position pn/pd in cells, cells)
           result,      \* final candidates (before Overlap.tla's removal, which is validated separately)
           radius,      \* radial grids: outer edge index (stop) or -1
           spanning     \* the padded analysis met a cluster spanning the whole axis
@@ -65,15 +77,22 @@ SumJ(C) == IF C = {} THEN 0 ELSE LET c == CHOOSE x \in C : TRUE IN c[2] + SumJ(C
 RECURSIVE SumW(_)
 SumW(C) == IF C = {} THEN 0 ELSE LET c == CHOOSE x \in C : TRUE IN 2 * c[1] + 1 + SumW(C \ {c})
 
+RECURSIVE SumWJ(_)
+SumWJ(C) == IF C = {} THEN 0 ELSE LET c == CHOOSE x \in C : TRUE IN (2 * c[1] + 1) * c[2] + SumWJ(C \ {c})
+
 OnAxis(C) == \E c \in C : c[1] = 0
 MinJ(C) == CHOOSE j \in {c[2] : c \in C} : \A c \in C : j <= c[2]
 MaxJ(C) == CHOOSE j \in {c[2] : c \in C} : \A c \in C : j >= c[2]
 
+CandOf(C) == [vc |-> Cardinality(C), w |-> SumW(C), sz |-> SumJ(C), szw |-> SumWJ(C),
+              pn |-> IF ZWeight = "count" THEN SumJ(C) ELSE SumWJ(C),
+              pd |-> IF ZWeight = "count" THEN Cardinality(C) ELSE SumW(C),
+              cells |-> C]
 \* candidates of one image (set of cells on a lattice with nz axial cells), in label order
 CandsOf(img, nz) ==
     LET seq == OrderBy(CompsO(img), nz)
         on == SelectSeq(seq, OnAxis)
-    IN [k \in Range(Len(on)) |-> [vc |-> Cardinality(on[k]), w |-> SumW(on[k]), sz |-> SumJ(on[k]), cells |-> on[k]]]
+    IN [k \in Range(Len(on)) |-> CandOf(on[k])]
 
 Padded == UNION {{<<c[1], c[2] + k * Nz>> : c \in mask} : k \in 0..2}
 
@@ -81,11 +100,16 @@ Start ==
     /\ pc = "start" /\ Family = "cyl"
     /\ IF PZ
        THEN LET cs == CandsOf(Padded, 3 * Nz)
-                span == \E k \in Range(Len(cs)) : /\ MinJ(cs[k].cells) = 0
-                                                   /\ IF SpanRule = "one-period" THEN MaxJ(cs[k].cells) + 1 > Nz
-                                                      ELSE MaxJ(cs[k].cells) + 1 = 3 * Nz
-            IN IF span THEN spanning' = TRUE /\ cands' = <<>> /\ pc' = "single"
-               ELSE spanning' = FALSE /\ cands' = cs /\ pc' = "central"
+                IsSpan(cd) == /\ MinJ(cd.cells) = 0
+                              /\ IF SpanRule = "one-period" THEN MaxJ(cd.cells) + 1 > Nz
+                                 ELSE MaxJ(cd.cells) + 1 = 3 * Nz
+                span == \E k \in Range(Len(cs)) : IsSpan(cs[k])
+            IN IF span /\ SpanHandling = "fallback" THEN spanning' = TRUE /\ cands' = <<>> /\ pc' = "single"
+               ELSE /\ spanning' = span
+                    \* of a winding cluster only the cells in the central copy count: its volume is that of one period
+                    /\ cands' = [k \in Range(Len(cs)) |->
+                                   IF IsSpan(cs[k]) THEN CandOf({c \in cs[k].cells : c[2] >= Nz /\ c[2] < 2 * Nz}) ELSE cs[k]]
+                    /\ pc' = "central"
        ELSE spanning' = FALSE /\ cands' = <<>> /\ pc' = "single"
     /\ UNCHANGED <<mask, result, radius>>
 
@@ -95,14 +119,14 @@ Single ==
     /\ pc' = "done"
     /\ UNCHANGED <<mask, cands, radius, spanning>>
 
-\* z of a padded candidate after subtracting one period, times 2 vc:  2 vc (Z0 + DZ (sz/vc + 1/2) - Nz DZ)
-ZNum(cd, shift) == 2 * cd.vc * Z0 + DZ * (2 * cd.sz + cd.vc) - 2 * cd.vc * shift
+\* z of a padded candidate after subtracting one period, times 2 pd:  2 pd (Z0 + DZ (pn/pd + 1/2) - Nz DZ)
+ZNum(cd, shift) == 2 * cd.pd * Z0 + DZ * (2 * cd.pn + cd.pd) - 2 * cd.pd * shift
 Central ==
     /\ pc = "central"
     /\ result' = SelectSeq(cands, LAMBDA cd :
-                     /\ ZNum(cd, Nz * DZ) >= 2 * cd.vc * Z0
-                     /\ IF CentralRule = "closed" THEN ZNum(cd, Nz * DZ) <= 2 * cd.vc * (Z0 + Nz * DZ)
-                        ELSE ZNum(cd, Nz * DZ) < 2 * cd.vc * (Z0 + Nz * DZ))
+                     /\ ZNum(cd, Nz * DZ) >= 2 * cd.pd * Z0
+                     /\ IF CentralRule = "closed" THEN ZNum(cd, Nz * DZ) <= 2 * cd.pd * (Z0 + Nz * DZ)
+                        ELSE ZNum(cd, Nz * DZ) < 2 * cd.pd * (Z0 + Nz * DZ))
     /\ pc' = "done"
     /\ UNCHANGED <<mask, cands, radius, spanning>>
 
@@ -112,28 +136,39 @@ Next == Radial \/ Start \/ Single \/ Central
 (* Properties *)
 Done == pc = "done"
 
-\* C02 (cylindrical clause), non-periodic or fallback: result <-> open components touching the axis
-SingleCorrect == (Done /\ Family = "cyl" /\ (~PZ \/ spanning)) =>
+RefD(C) == IF Reading = "cells" THEN Cardinality(C) ELSE SumW(C)
+RefN(C) == IF Reading = "cells" THEN SumJ(C) ELSE SumWJ(C)
+\* C02 (cylindrical clause), non-periodic z: result <-> open components touching the axis, each with its volume and
+\* its centre of mass (in the adopted Reading)
+SingleCorrect == (Done /\ Family = "cyl" /\ ~PZ) =>
     LET on == {C \in CompsO(mask) : OnAxis(C)} IN
     /\ Len(result) = Cardinality(on)
-    /\ \A k \in Range(Len(result)) : result[k].cells \in on /\ result[k].w = SumW(result[k].cells)
+    /\ \A k \in Range(Len(result)) : /\ result[k].cells \in on /\ result[k].w = SumW(result[k].cells)
+                                     /\ result[k].pn * RefD(result[k].cells) = result[k].pd * RefN(result[k].cells)
     /\ \A k, m \in Range(Len(result)) : k # m => result[k].cells # result[m].cells
 
-\* periodic z: every non-winding torus component touching the axis is found EXACTLY ONCE, with its volume weight and
-\* its lifted axial moment (modulo the period) -- also when its centre sits exactly on the seam
+\* periodic z: EVERY torus component touching the axis is found EXACTLY ONCE with its volume weight -- also when its
+\* centre sits exactly on the seam, and also when some OTHER component winds around the axis; a non-winding component
+\* is reported at its lifted centre of mass (modulo the period)
 Unpad(C) == {<<c[1], c[2] % Nz>> : c \in C}
+RECURSIVE WSumLift(_)
+WSumLift(S) == IF S = {} THEN 0
+               ELSE LET e == CHOOSE x \in S : TRUE
+                    IN (2 * e[1][1] + 1) * (e[1][2] + Nz * e[2][2]) + WSumLift(S \ {e})
+RefLift(Lf) == IF Reading = "cells" THEN SumLift(Lf, 2) ELSE WSumLift(Lf)
 WindingOnAxis == \E C \in CompsP(mask) : OnAxis(C) /\ Winding(Lift(C))
-PeriodicCorrect == (Done /\ Family = "cyl" /\ PZ /\ ~WindingOnAxis) =>
+PeriodicCorrect == (Done /\ Family = "cyl" /\ PZ) =>
     LET on == {C \in CompsP(mask) : OnAxis(C)} IN
     /\ \A C \in on :
          LET Lf == Lift(C)
              hits == {k \in Range(Len(result)) : Unpad(result[k].cells) = C /\ result[k].vc = Cardinality(C)}
          IN /\ Cardinality(hits) = 1
             /\ \A k \in hits : /\ result[k].w = SumW(C)
-                              /\ (result[k].sz - SumLift(Lf, 2)) % (Nz * result[k].vc) = 0
+                              /\ ~Winding(Lf) =>
+                                    (result[k].pn * RefD(C) - result[k].pd * RefLift(Lf)) % (Nz * result[k].pd * RefD(C)) = 0
     /\ \A k \in Range(Len(result)) : Unpad(result[k].cells) \in on /\ Cardinality(Unpad(result[k].cells)) = result[k].vc
     /\ (on = {}) => result = <<>>
-\* the padded analysis is abandoned exactly when a cluster touching the axis winds around the periodic axis
+\* a cluster is treated as winding exactly when a component touching the axis winds around the periodic axis
 SpanSound == (Done /\ Family = "cyl" /\ PZ) => (spanning <=> WindingOnAxis)
 
 NoAxisNoDroplet == (Done /\ Family = "cyl" /\ ~(\E c \in mask : c[1] = 0)) => result = <<>>
